@@ -57,6 +57,16 @@ def main():
         out["stage"] = "generate"
         m, path = generate(workdir, modname, order)
         out["iface_sha"] = __import__("hashlib").sha256(open(path, "rb").read()).hexdigest()
+        # generating the same input a second time in the same process must give the same text
+        first_text = open(path).read()
+        generate(workdir, modname, order)
+        second_text = open(path).read()
+        out["second_generation_in_process_equal"] = (first_text == second_text)
+        if first_text != second_text:
+            import difflib
+            out["second_generation_diff"] = "\n".join(list(difflib.unified_diff(first_text.splitlines(), second_text.splitlines(), lineterm="", n=0))[:12])
+            with open(path, "w") as fh:
+                fh.write(first_text)
         out["stage"] = "import"
         iface = importlib.import_module(modname.replace(".", "_") + "_iface")
         out["stage"] = "configure"
